@@ -66,3 +66,53 @@ c = contract('ikesa.IkeSa.process_acquire', params={'tsi': TS, 'tsr': TS, 'index
                     })))
 c.allocates = True
 c.no_frame = True
+
+# ---- kernel EXPIRE for a CHILD_SA (C10 / C16): soft -> rekey request for that CHILD_SA, hard -> delete request -------------
+CH = Rec('ChildSa')
+# ASSUMED (one generator expression).  The last clause is an assumed invariant of the tracked CHILD_SAs (4-octet SPIs, ESP /
+# AH protocol numbers) that Inv(IkeSa) does not carry yet
+contract('ikesa.IkeSa.get_child_sa', params={'spi': Bytes}, returns=Opt(CH), props=['C10', 'C16'], verify=False,
+         requires=['live_ref(self)'], modifies=[], raises={},
+         ensures={'found': 'implies(result is not None, exists(lambda j: 0 <= j and j < len(self.child_sas) '
+                           'and at(self.child_sas, j) == result) '
+                           'and (result.inbound_spi == spi or result.outbound_spi == spi))',
+                  'tracked-fit-the-wire': 'implies(result is not None, 0 <= result.proposal.protocol_id <= 255 '
+                                          'and len(result.inbound_spi) <= 255)',
+                  'none': 'implies(result is None, forall(lambda j: implies(0 <= j and j < len(self.child_sas), '
+                          'at(self.child_sas, j).inbound_spi != spi and at(self.child_sas, j).outbound_spi != spi)))'})
+
+ghostvar('del_n', Int, observer=True)            # delete requests generated for a CHILD_SA so far
+ghostvar('del_child', CH, observer=True)
+ghostvar('rekey_of', Opt(CH), observer=True)     # the CHILD_SA the last CREATE_CHILD_SA request replaces (None: a new one)
+CONTRACTS['ikesa.IkeSa.generate_delete_child_sa_request'].defines = {'del_n': 'del_n + 1', 'del_child': 'child_sa'}
+CONTRACTS['ikesa.IkeSa.generate_create_child_sa_request'].defines = {
+    'acq_n': 'acq_n + 1', 'acq_child': 'child_sa', 'rekey_of': 'rekeyed_child_sa'}
+
+c = contract('ikesa.IkeSa.process_expire', params={'spi': Bytes, 'hard': Bool},
+             **dict(TRIGGER, props=['C10', 'C16', 'C08', 'C09', 'C13'],
+                    ensures=dict(TRIGGER['ensures'], **{
+                        'C16:unknown-spi-ignored':
+                            'implies(old(self.state) == 10 and forall(lambda j: implies(0 <= j and j < len(old(self.child_sas)), '
+                            'at(old(self.child_sas), j).inbound_spi != spi and at(old(self.child_sas), j).outbound_spi != spi)), '
+                            'result is None and nothing_changed())',
+                        'C16:queued': 'implies(old(self.state) != 10, result is None and self.state == old(self.state) '
+                                      'and del_n == old(del_n) and acq_n == old(acq_n) '
+                                      'and len(self.pending_events) == len(old(self.pending_events)) + 1)',
+                        # hard expiry: a delete request for exactly the CHILD_SA that owns the SPI
+                        'C10:hard-deletes-owner':
+                            'implies(result is not None and hard, del_n == old(del_n) + 1 and acq_n == old(acq_n) '
+                            'and exists(lambda j: 0 <= j and j < len(old(self.child_sas)) and at(old(self.child_sas), j) == del_child) '
+                            'and (del_child.inbound_spi == spi or del_child.outbound_spi == spi))',
+                        # soft expiry: a rekey request that replaces exactly that CHILD_SA and asks for the same selectors,
+                        # mode, lifetime and originally configured proposal
+                        'C10:soft-rekeys-owner':
+                            'implies(result is not None and not hard, acq_n == old(acq_n) + 1 and del_n == old(del_n) '
+                            'and rekey_of is not None and exists(lambda j: 0 <= j and j < len(old(self.child_sas)) '
+                            '    and at(old(self.child_sas), j) == rekey_of) '
+                            'and (rekey_of.inbound_spi == spi or rekey_of.outbound_spi == spi) '
+                            'and acq_child.tsi == [rekey_of.tsi] and acq_child.tsr == [rekey_of.tsr] '
+                            'and acq_child.mode == rekey_of.mode and acq_child.lifetime == rekey_of.lifetime '
+                            'and acq_child.proposal == rekey_of.original_proposal)',
+                    })))
+c.allocates = True
+c.no_frame = True
